@@ -11,6 +11,8 @@ import (
 	"net/http"
 	"net/http/httptest"
 	"net/url"
+	"os"
+	"path/filepath"
 	"regexp"
 	"strings"
 	"sync"
@@ -45,15 +47,25 @@ type httpSim struct {
 	st        *devState
 	kinds     []string // per request: what it was for the device
 	hash0     string
+	// every request is journalled to <simDir>/transcript as it arrives (format of the console
+	// simulator: S0 hash, L n kind line, F n kind, S1 hash after every request), so that what the
+	// device received survives a process that exits or hangs before it reports
+	journal *os.File
 }
 
 var keyRe = regexp.MustCompile(`key=[^&]*&`)
 var passRe = regexp.MustCompile(`password=[^&]*`)
 
-func newHTTPSim(backend string, sc *HTTPScen, pos int, kind string) *httpSim {
+func newHTTPSim(backend string, sc *HTTPScen, pos int, kind string, simDir string) *httpSim {
 	h := &httpSim{backend: backend, sc: sc, faultPos: pos, faultKind: kind, faultAt: -1, done: make(chan struct{})}
 	h.st = newDevState(backend, nil)
 	h.hash0 = h.st.hash()
+	if simDir != "" {
+		h.journal, _ = os.OpenFile(filepath.Join(simDir, "transcript"), os.O_APPEND|os.O_CREATE|os.O_WRONLY, 0644)
+	}
+	if h.journal != nil {
+		fmt.Fprintf(h.journal, "S0 %s\n", h.hash0)
+	}
 	h.srv = httptest.NewTLSServer(http.HandlerFunc(h.handle))
 	return h
 }
@@ -94,6 +106,14 @@ func (h *httpSim) handle(w http.ResponseWriter, r *http.Request) {
 		h.faultAt = idx
 	}
 	kind := h.faultKind
+	if h.journal != nil {
+		jl := strings.NewReplacer("\t", " ", "\n", " ", "\r", " ").Replace(line)
+		fmt.Fprintf(h.journal, "L %d %s %s\n", idx, h.kinds[idx-1], jl)
+		if fault {
+			fmt.Fprintf(h.journal, "F %d %s\n", idx, kind)
+		}
+		fmt.Fprintf(h.journal, "S1 %s\n", h.st.hash())
+	}
 	h.mu.Unlock()
 
 	if fault {
